@@ -186,14 +186,11 @@ impl<'store> Transposable<'store> for ResultTextSelectionSet<'store> {
                             let source_offset: Offset = intersection.into();
                             if let Some(remainder) = remainder {
                                 if remainder.begin() < intersection.begin() {
-                                    //not a valid intersection, skip to the next
-                                    relative_offsets.clear();
-                                    selectors_per_side[side_i].clear();
-                                    source_textselections.clear();
-                                    source_side = None;
-                                    source_found = false;
+                                    //this reference fragment only covers a later part of the text selection,
+                                    //skip it for now: the part before it has to be found first, the rest comes back as remainder
+                                    //(the fragments matched so far are kept)
                                     if config.debug {
-                                        eprintln!("[stam transpose] remainder preceeds intersection, bailing out...");
+                                        eprintln!("[stam transpose] remainder preceeds intersection, skipping this fragment...");
                                     }
                                     continue;
                                 }
